@@ -111,6 +111,53 @@ def mutation_controls(pid, repo):
         finally:
             shutil.rmtree(tmp, ignore_errors=True)
         out.append(entry)
+    out.extend(revert_controls(pid, repo))
+    return out
+
+
+def revert_controls(pid, repo):
+    """thorough tier: every genuine defect that was repaired in /repo (the 'fixed:' entries of known_findings.json naming this property)
+    is re-introduced on a scratch copy by applying its fix commit in reverse; the rule recorded for it must report it again.  A fix
+    whose reverse no longer applies (later commits touched the same lines) is skipped."""
+    import re, shutil, subprocess, tempfile
+    out = []
+    if not os.path.isdir(os.path.join(repo, ".git")) and not os.path.isfile(os.path.join(repo, ".git")):
+        return out
+    for line in load_known().get("fixed", []):
+        m = re.match(r"fixed: property=(C\d\d) ([0-9a-f]{7,12}) ", line)
+        if not m or m.group(1) != pid:
+            continue
+        want = _rules_named(line)
+        if not want:
+            continue
+        h = m.group(2)
+        diff = subprocess.run(["git", "-C", repo, "show", "--format=", h, "--", "qsopt_ex", "esolver"], capture_output=True, text=True)
+        if diff.returncode != 0 or not diff.stdout.strip():
+            continue
+        entry = {"seed": "revert of fix %s" % h, "expected_rules": sorted(want)}
+        tmp = tempfile.mkdtemp(prefix="qsa-rev-", dir="/var/tmp")
+        try:
+            files = subprocess.run(["git", "-C", repo, "ls-files"], capture_output=True, text=True).stdout.split()
+            for fn in files:
+                src = os.path.join(repo, fn)
+                if os.path.isfile(src) and (fn.endswith((".c", ".h", ".am", ".ac", ".in")) or "/" not in fn):
+                    os.makedirs(os.path.dirname(os.path.join(tmp, fn)) or tmp, exist_ok=True)
+                    shutil.copy(src, os.path.join(tmp, fn))
+            r = subprocess.run(["patch", "-R", "-p1", "--batch", "--silent", "-d", tmp], input=diff.stdout, capture_output=True, text=True)
+            if r.returncode != 0:
+                entry["result"] = "skipped: the fix can no longer be reverted on the current tree"
+                out.append(entry)
+                continue
+            try:
+                o = run_property(pid, "quick", tmp, 0, fixtures=False)
+                got = {v.rule for v in o["violations"]} | {v.rule for v, k in o["known"]}
+                entry["reported_rules"] = sorted(got)
+                entry["result"] = "detected" if (got & want) else "NOT DETECTED"
+            except AnalysisBroken as ex:
+                entry["result"] = "analysis broken on the reverted tree: %s" % ex
+        finally:
+            shutil.rmtree(tmp, ignore_errors=True)
+        out.append(entry)
     return out
 
 
